@@ -90,7 +90,7 @@ func (ck *Check) liftedEntails(fn *ssa.Function, in ssa.Instruction, mk func(ctx
 		if okv && err == nil {
 			return true, "", len(chain) - 1
 		}
-		if len(chain) > 3 {
+		if len(chain) > 5 {
 			return false, why, len(chain) - 1
 		}
 		outer := chain[0].fn
@@ -157,7 +157,7 @@ func (ck *Check) allocationBounds(rule string, fns []*ssa.Function) {
 					st := ck.P.NewCtx(fn).Term(sz).String()
 					switch {
 					case !okLow:
-						ck.fail(rule, key, ck.P.instrPos(ms), funcID(fn), "make: 0 ≤ "+what+" on every path (through up to three caller frames)", st, "a negative size panics in runtime.makeslice: "+whyLow)
+						ck.fail(rule, key, ck.P.instrPos(ms), funcID(fn), "make: 0 ≤ "+what+" on every path (through up to five caller frames)", st, "a negative size panics in runtime.makeslice: "+whyLow)
 					case !okUp:
 						ck.fail(rule, key, ck.P.instrPos(ms), funcID(fn), "make: "+what+" is bounded by lengths of live collections, configured options and constants", st,
 							"the size follows a quantity computed from listed objects (unbounded): makeslice panics with 'cap out of range' or the process runs out of memory: "+whyUp)
